@@ -70,8 +70,33 @@ def run_check(d, prop, tier, runs=None):
             cmd += ["--runs", str(runs)]
         p = subprocess.run(cmd, env=env, capture_output=True, text=True, timeout=7200, cwd=VERIF)
         sigs = [l.strip()[:200] for l in p.stdout.splitlines() if l.strip().startswith("signature=") or "further signature" in l]
-        return {"property": prop, "exit": p.returncode, "signatures": sigs[:4],
-                "tail": "" if p.returncode in (0, 1) else (p.stdout + p.stderr)[-500:]}
+        out = {"property": prop, "exit": p.returncode, "signatures": sigs[:4],
+               "tail": "" if p.returncode in (0, 1) else (p.stdout + p.stderr)[-500:]}
+        # every replay file printed must (i) fail again, as recorded, against the changed tree and (ii) be quiet against /repo
+        # itself: the minimised history is a legal use of the library, so an alarm there would be a false alarm of the oracle
+        # (or a defect of the unchanged tree that the batch does not happen to reach)
+        rps = [l.split("replay=", 1)[1].strip() for l in p.stdout.splitlines() if l.startswith("VIOLATION ") and "replay=" in l]
+        rep = {"files": len(rps), "reproduced_on_changed_tree": 0, "quiet_on_unchanged_tree": 0, "problems": []}
+        for rp in rps[:3]:
+            if "/findings/" in rp:
+                continue
+            a = subprocess.run([os.path.join(VERIF, "bin", "replay"), rp], env=env, capture_output=True, text=True, timeout=900, cwd=VERIF)
+            if a.returncode == 1 and "(as recorded)" in a.stdout:
+                rep["reproduced_on_changed_tree"] += 1
+            else:
+                rep["problems"].append("changed tree: exit %d %s" % (a.returncode, a.stdout.strip().splitlines()[:1]))
+            env0 = dict(env, VERIF_REPO=REPO)
+            b = subprocess.run([os.path.join(VERIF, "bin", "replay"), rp], env=env0, capture_output=True, text=True, timeout=900, cwd=VERIF)
+            if b.returncode == 0:
+                rep["quiet_on_unchanged_tree"] += 1
+            else:
+                keep = os.path.join(VERIF, "scratch")
+                os.makedirs(keep, exist_ok=True)
+                shutil.copy(rp, keep)
+                rep["problems"].append("UNCHANGED TREE ALARM: exit %d %s (copy kept in scratch/%s)" % (
+                    b.returncode, b.stdout.strip().splitlines()[:2], os.path.basename(rp)))
+        out["replays"] = rep
+        return out
     finally:
         drop(t)
 
@@ -123,7 +148,10 @@ def main():
                     if r["tail"]:
                         print("    " + r["tail"].replace("\n", "\n    "))
                     sys.stdout.flush()
-                    results.setdefault(sid, {})[prop + ":" + tier] = {"status": status, "signatures": r["signatures"]}
+                    if r.get("replays", {}).get("problems"):
+                        print("    REPLAY PROBLEMS: %s" % r["replays"]["problems"])
+                    results.setdefault(sid, {})[prop + ":" + tier] = {"status": status, "signatures": r["signatures"],
+                                                                       "replays": r.get("replays")}
         finally:
             for f in os.listdir(keep):
                 shutil.copy(os.path.join(keep, f), os.path.join(VERIF, "evidence", f))
